@@ -152,6 +152,9 @@ fn s(x: impl Into<String>) -> J {
 fn n(x: impl Into<i128>) -> J {
     J::Num(x.into())
 }
+fn n_(x: i128) -> J {
+    J::Num(x)
+}
 fn obj(v: Vec<(&str, J)>) -> J {
     J::Obj(v.into_iter().map(|(k, v)| (k.to_string(), v)).collect())
 }
@@ -481,6 +484,32 @@ impl<'tcx> Cx<'tcx> {
                 } else {
                     v.push(("val", J::Null));
                     v.push(("ptr", J::Bool(true)));
+                    // `&[u8; N]` constants (e.g. format_args! templates): read the bytes
+                    if let Some(inner) = ty.builtin_deref(true) {
+                        if let ty::Array(elem, len) = *inner.kind() {
+                            if elem == tcx.types.u8 {
+                                if let (rustc_middle::mir::interpret::Scalar::Ptr(ptr, _), Some(n)) =
+                                    (sc, len.try_to_target_usize(tcx))
+                                {
+                                    let (prov, off) = ptr.into_raw_parts();
+                                    if let Some(rustc_middle::mir::interpret::GlobalAlloc::Memory(a)) =
+                                        tcx.try_get_global_alloc(prov.alloc_id())
+                                    {
+                                        let a = a.inner();
+                                        let start = off.bytes_usize();
+                                        let end = start + n as usize;
+                                        if end <= a.len() {
+                                            let bytes = a.inspect_with_uninit_and_ptr_outside_interpreter(start..end);
+                                            v.push((
+                                                "bytes",
+                                                J::Arr(bytes.iter().map(|b| n_(*b as i128)).collect()),
+                                            ));
+                                        }
+                                    }
+                                }
+                            }
+                        }
+                    }
                 }
             }
             ConstValue::ZeroSized if matches!(ty.kind(), ty::Adt(..)) => {
@@ -589,6 +618,10 @@ impl<'tcx> Cx<'tcx> {
                 obj(vec![("ty", s(format!("{ty}"))), ("uneval", s(key))])
             }
             Const::Ty(ty, ct) => {
+                if let ty::ConstKind::Value(cv) = ct.kind() {
+                    let val = tcx.valtree_to_const_val(cv);
+                    return self.const_value(val, ty);
+                }
                 let mut v = vec![("ty", s(format!("{ty}")))];
                 if let Some(sc) = ct.try_to_scalar() {
                     if let Ok(si) = sc.try_to_scalar_int() {
